@@ -98,6 +98,17 @@ def same(a, b, what, exact=True, tol=1e-4, anchor_rounding=False):
 
 
 def run_case(kind, p):
+    if p.get("backend") == "slicing":
+        # the same relations with the slicing crop function (the one the UDFs select for sparse / GPU back-ends)
+        import functools
+        from libertem_blobfinder.base import correlation as bc_
+        keep_ = (impl.run_fast, impl.run_full)
+        impl.run_fast = functools.partial(keep_[0], crop_function=bc_.crop_disks_from_frame_slicing)
+        impl.run_full = functools.partial(keep_[1], crop_function=bc_.crop_disks_from_frame_slicing)
+        try:
+            return run_case(kind, dict(p, backend="pixel"))
+        finally:
+            impl.run_fast, impl.run_full = keep_
     if kind == "wide":
         return wide_case(p)
     rng = np.random.default_rng(p["seed"])
@@ -323,7 +334,16 @@ def search(ctx, boost=1, focus=()):
         p = {"seed": int(rng.integers(1 << 30)), "pattern": pat, "shape": shape,
              "frame_kind": ("int", "gauss", "disks", "int")[k % 4], "peaks": peaks.tolist(),
              "t": [int(rng.integers(-5, 6)), int(rng.integers(-5, 6))], "b": int(rng.integers(1, npk + 2)),
-             "offset": int(rng.integers(1, 10001)), "upsample": (False, False, 20, False, int(rng.integers(2, 51)), True)[(k // 4) % 6]}
+             "offset": int(rng.integers(1, 10001)), "upsample": (False, False, 20, False, int(rng.integers(2, 51)), True)[(k // 4) % 6],
+             "backend": "slicing" if (k // 2) % 3 == 1 else "pixel"}
+        if p["backend"] == "slicing" and k % 4 < 2:
+            # a frame that is clearly wider than high (or higher than wide), peaks in the far part of the long axis
+            long_ = int(rng.integers(90, 130))
+            p["shape"] = [shape[0], long_] if k % 2 == 0 else [long_, shape[1]]
+            shape = p["shape"]
+            peaks = np.stack([rng.integers(c, shape[0] - c + 1, npk), rng.integers(c, shape[1] - c + 1, npk)], axis=1)
+            peaks[0] = (shape[0] - c - int(rng.integers(0, 5)), shape[1] - c - int(rng.integers(0, 5)))
+            p["peaks"] = peaks.tolist()
         msgs_ = run_case("relations", p)
         ctx.oracle_case("relations", p, msgs_, key=classify("relations", p, msgs_) if msgs_ else None,
                         nontrivial=(shape[0] != shape[1] or (p["t"][0] != 0 and p["t"][1] != 0)))
